@@ -22,7 +22,7 @@ def cases(seed, tier):
     out = []
     for k in range(n):
         r = random.Random(sch.np_seed(f"c04.{k}"))
-        c = wp.std_case(r, sch.np_seed(f"s{k}"), kinds=("gauss", "bimodal", "expedge", "hole", "corr"), scenarios=("plain", "crash_resume", "crash_resume", "rerun", "rerun", "like_raise"), blobs=(0,), evals=("scalar", "vector"))
+        c = wp.std_case(r, sch.np_seed(f"s{k}"), kinds=("gauss", "bimodal", "expedge", "hole", "corr"), scenarios=("plain", "crash_resume", "crash_resume", "rerun", "rerun", "like_raise", "rewind"), blobs=(0,), evals=("scalar", "vector"))
         if c["scenario"] == "crash_resume":
             c["reconfig"] = dict(n_particles=c["cfg"]["n_particles"] * r.choice([2, 3]))
         if r.random() < 0.25:
@@ -42,6 +42,8 @@ def cases(seed, tier):
         r = random.Random(sch.np_seed(f"c04.syn{k}"))
         out.append(dict(synthetic=True, seed=sch.np_seed(f"syn{k}") % (2**31), d=r.choice([1, 2, 3]), T=r.choice([1, 2, 3, 5, 8, 12, 20, 129, 200, 300]), unequal=r.random() < 0.7, shuffle=r.random() < 0.6,
                         scale=r.choice([1.0, 100.0, 1e4, 1e6])))
+    for k in range(1 if tier == "quick" else 4):
+        out.append(dict(synthetic=True, seed=sch.np_seed(f"synhuge{k}") % (2**31), d=1, T=64, unequal=False, shuffle=k % 2 == 1, scale=1.0, huge=[5300, 4200, 9000, 6100][k]))
     return out
 
 
@@ -68,6 +70,8 @@ def run_synthetic(case):
         r.shuffle(betas)
     for t in range(Tn):
         n = r.choice([1, 2, 3, 5, 8, 13, 32]) if case["unequal"] else 8
+        if case.get("huge"):
+            n = case["huge"] + (t % 7)  # samples x iterations above 2^24: beyond any block size a memory-saving evaluation path might introduce, and not a multiple of it
         hist["u"].append(nr.random_sample((n, d)))
         hist["x"].append(nr.random_sample((n, d)))
         center = r.uniform(-1, 1) * scale
